@@ -241,4 +241,20 @@ example : (demoTie.report (1/4)).guards = true ∧ (demoTie.report (1/4)).paths 
 end Tie
 /-! ## ===== END work package c11tie ===== -/
 
+
+/-- Lean witness of the OPEN finding `adev-site-in-cond-branch` (DESIGN §8): the interpreter gives an enumeration site inside a `lax.cond`
+    branch only the rest of the BRANCH as its continuation and applies the computation after the cond to the branch's result.
+    For `b = flip_enum(p); x = cond(b, where(flip_enum(q), 2, -1)·q, p); return x²` at (p, q) = (3/10, 3/5):
+    the expectation (what the property demands, and what the outcome-tree model `Prog.exact` computes) is 1827/5000 = 0.3654, the
+    branch-local evaluation is 3303/25000 = 0.13212 — the value the implementation returns (replayed by `props/c11.py`). -/
+theorem C11_asis_cond_branch_cex :
+    let p : Dual ℚ := ⟨3/10, 0⟩
+    let q : Dual ℚ := ⟨3/5, 0⟩
+    let x : Bool → Dual ℚ := fun b => Dual.mul (if b then Dual.const 2 else Dual.const (-1)) q
+    let sq : Dual ℚ → Dual ℚ := fun d => Dual.mul d d
+    (flipEnum p (flipEnum q (sq (x true)) (sq (x false))) (sq p)).v = 1827/5000 ∧
+    (flipEnum p (sq (flipEnum q (x true) (x false))) (sq p)).v = 3303/25000 := by
+  simp only [flipEnum, Dual.add, Dual.mul, Dual.sub, Dual.const]
+  norm_num
+
 end Genjax.Adev
